@@ -117,6 +117,8 @@ def disk(radius, dim=2):
     import numpy as np
     if dim <= 0:
         raise ValueError('mahotas.morph.disk: dimension must be positive')
+    if dim > 32:
+        raise ValueError('mahotas.morph.disk: too many dimensions (numpy arrays cannot have them)')
     shape = [(radius*2+1) for _ in range(dim)]
     if dim == 2:
         return _morph.disk_2d(np.zeros(shape, bool), radius)
